@@ -28,6 +28,7 @@
 #include <stdlib.h>
 #include <string.h>
 #include "vnacal_new_internal.h"
+#include "vnaproperty_internal.h"
 
 
 /*
@@ -43,7 +44,7 @@ void vnacal_free(vnacal_t *vcp)
 
 	    vnacal_new_free(vnp);
 	}
-	(void)vnaproperty_delete(&vcp->vc_properties, ".");
+	_vnaproperty_free_tree(&vcp->vc_properties);
 	assert(vcp->vc_properties == NULL);
 	for (int ci = 0; ci < vcp->vc_calibration_allocation; ++ci) {
 	    _vnacal_calibration_free(vcp->vc_calibration_vector[ci]);
